@@ -383,6 +383,55 @@ def check_returned_arguments(ctx, F, tag, rule="C09.R7.returned-argument-bounded
     ctx.count("integer-query-entries" + tag, n)
 
 
+def check_refusal_precedes_use(ctx, F, tag, rule="C09.R10.refusal-precedes-use"):
+    """A constructor or builder step that refuses an argument with Err does so before the argument is used: a call that receives a
+    parameter, executed on the way to the test whose failing side is the Err exit, runs with the value that was to be refused (an
+    allocation of usize::MAX items, an unchecked write with width 65).  Decided per function: the parameters compared on the edges
+    into an Err exit, the test block those edges leave, and the calls not dominated by it that take such a parameter.  A callee
+    that allocates, builds or writes (with_len, with_capacity, new, multiset, resize, reserve, push_int, set_int, ..) is a
+    violation; any other is undecided."""
+    from guards import facts_at, edge_facts
+    HEAVY = ("with_len", "with_capacity", "new", "multiset", "resize", "reserve", "push_int", "set_int", "push", "set", "from", "with_buf_len")
+    n = 0
+    for b in F.all_bodies():
+        if "::tests::" in b.name or b.name.startswith("internal::") or "{closure" in b.name:
+            continue
+        errs = [bi for bi, si, st in b.stmts() if st["s"] == "assign" and st["rv"]["r"] == "agg" and st["rv"].get("def") == "std::result::Result" and st["rv"].get("variant") == 1]
+        if not errs:
+            continue
+        validated = {}
+        ef = edge_facts(b)
+        for eb in errs:
+            fs = [(None, f) for f in facts_at(b, eb)] + [(u, f) for u, v, f in ef if v == eb]
+            for u, f in fs:
+                if f[0] != "cmp":
+                    continue
+                for side in (f[2], f[3]):
+                    s0 = strip_casts(side)
+                    if s0[0] == "param":
+                        validated.setdefault(s0[1], set()).add(eb)
+        for p_, ebs in sorted(validated.items()):
+            tests = set()
+            for eb in ebs:
+                cands = [x for x in b.reachable() if b.blocks[x]["term"]["t"] == "switch" and x != eb and b.dominates(x, eb)]
+                # the first test on the way: the one that dominates the others
+                first = [x for x in cands if any(strip_casts(side)[:2] == ("param", p_) for u, v, f in ef if u == x and f[0] == "cmp" for side in (f[2], f[3]))]
+                first = [x for x in first if all(b.dominates(x, y) for y in first)]
+                if first:
+                    tests.add(first[0])
+            for T in tests:
+                reach = b.can_reach([T])
+                for bi, t in b.calls():
+                    if bi == T or b.dominates(T, bi) or bi not in reach:
+                        continue
+                    if any(strip_casts(b.term_of_operand(a))[:2] == ("param", p_) for a in t["args"]):
+                        n += 1
+                        heavy = callee_name(t).split("::")[-1].split("<")[0] in HEAVY
+                        ctx.ob(rule, "%s|%s|%s%s" % (b.name, b.local_name(p_ + 1), callee_name(t).split("::")[-1], tag), loc(t["sp"]), False if heavy else None, "must-precede",
+                               "%s receives `%s` before the test at %s that refuses it with Err" % (callee_name(t), b.local_name(p_ + 1), loc(b.blocks[T]["term"]["sp"])), positive=heavy)
+    ctx.count("uses-before-refusal" + tag, n)
+
+
 def check_config_tail(ctx, F, tag):
     # (borrowed) "a position past the end is treated as the end": predecessor never answers an argument at or past the end with
     # the exhausted iterator (C10.R14)
@@ -390,6 +439,7 @@ def check_config_tail(ctx, F, tag):
     if not isinstance(ctx, Relabel):
         import c10
         c10.check_predecessor_accepts_large_arguments(ctx, F, tag, rule="C09.R9.predecessor-never-refuses-a-large-argument")
+        check_refusal_precedes_use(ctx, F, tag)
     check_select_clamps(ctx, F, tag)
     check_returned_arguments(ctx, F, tag)
     # a multiset can hold more values than its universe has positions: the provided `count_zeros() = len - count_ones` underflows
